@@ -9,7 +9,10 @@ import re
 from .tygraph import TyGraph, short
 
 SYMMETRIC = re.compile(r"^(tag\s*=\s*\"[^\"]*\"|content\s*=\s*\"[^\"]*\"|transparent|rename\s*=\s*\"[^\"]*\"|rename_all\s*=\s*\"[^\"]*\"|rename_all_fields\s*=\s*\"[^\"]*\"|untagged|default|default\s*=\s*\"[^\"]*\"|flatten|alias\s*=\s*\"[^\"]*\"|bound\s*=\s*\"[^\"]*\"|deny_unknown_fields|crate\s*=\s*\"[^\"]*\"|borrow)$")
-ASYMMETRIC = re.compile(r"^(skip|skip_serializing|skip_deserializing|skip_serializing_if|serialize_with|deserialize_with|with|rename\s*\(|rename_all\s*\(|from|into|try_from|other|getter|remote)\b")
+ASYMMETRIC = re.compile(r"^(skip|skip_serializing|skip_deserializing|serialize_with|deserialize_with|with|rename\s*\(|rename_all\s*\(|other|getter|remote)\b")
+# decided by looking further (see _skip_if and convert_pair): not asymmetric by themselves
+CONDITIONAL = re.compile(r"^(skip_serializing_if|from|into|try_from)\s*=\s*\"([^\"]*)\"$")
+EMPTY_IS_DEFAULT = {"Vec::is_empty", "String::is_empty", "str::is_empty", "HashMap::is_empty", "HashSet::is_empty", "BTreeMap::is_empty", "BTreeSet::is_empty", "VecDeque::is_empty"}
 
 
 def split_attr(tokens):
@@ -62,20 +65,43 @@ def audit(ck, prog, rule, root_adt, what):
         if rec is None:
             ck.undecided(rule, key + ":attrs", d["span"], "source record of %s not found (macro-generated?)" % nm)
             continue
-        bad, unknown, seen = [], [], []
+        bad, unknown, seen, pending = [], [], [], []
+        container_default = any(re.match(r"^default$", it) for a in rec["serde"] for it in split_attr(a))
         places = [("container", rec["serde"])]
         for v in rec["variants"]:
             places.append(("variant %s" % v["name"], v["serde"]))
             for f in v["fields"]:
                 places.append(("field %s.%s" % (v["name"], f["name"]), f["serde"]))
         for where, attrs in places:
-            for a in attrs:
-                for item in split_attr(a):
-                    seen.append(item)
-                    if ASYMMETRIC.match(item):
-                        bad.append("%s: %s" % (where, item))
-                    elif not SYMMETRIC.match(item):
+            items = [item for a in attrs for item in split_attr(a)]
+            has_default = any(re.match(r"^default$", it) for it in items)
+            for item in items:
+                seen.append(item)
+                m = CONDITIONAL.match(item)
+                if ASYMMETRIC.match(item):
+                    bad.append("%s: %s" % (where, item))
+                elif m and m.group(1) == "skip_serializing_if":
+                    v = _skip_if(tg, t, d, where, m.group(2), has_default or container_default)
+                    if v == "bad":
+                        bad.append("%s: %s (a skipped field is required when reading: the value written is rejected, not read back)" % (where, item))
+                    elif v == "unknown":
                         unknown.append("%s: %s" % (where, item))
+                elif m:
+                    pending.append((where, m.group(1), m.group(2)))
+                elif not SYMMETRIC.match(item):
+                    unknown.append("%s: %s" % (where, item))
+        if pending and not bad:
+            conv = dict((k, ty) for _, k, ty in pending)
+            if all(w == "container" for w, _, _ in pending) and set(conv) == {"from", "into"} and conv["from"] == conv["into"]:
+                v, why = convert_pair(prog, d, conv["from"])
+                if v == "bad":
+                    bad.append("container: from/into = %s: %s" % (conv["from"], why))
+                elif v == "unknown":
+                    unknown.append("container: from/into = %s (%s)" % (conv["from"], why))
+                else:
+                    seen.append("from/into = %s: %s" % (conv["from"], why))
+            else:
+                unknown += ["%s: %s = %s (a one-sided or fallible conversion: whether it undoes the other direction is not decided)" % x for x in pending]
         if bad:
             ck.refuted(rule, key, d["span"], "asymmetric serde attribute(s) on %s: %s — what is written is not what is read back" % (nm, bad))
         elif unknown:
@@ -83,3 +109,114 @@ def audit(ck, prog, rule, root_adt, what):
         else:
             ck.proved(rule, key, d["span"], "derive(Serialize, Deserialize), attributes %s" % (sorted(set(seen)) or "none"))
     return n_adts
+
+
+def _field_ty(tg, t, d, where):
+    """pretty type of the field named by `where` ("field Variant.name")"""
+    m = re.match(r"^field (\w+)\.(\w+)$", where)
+    if not m:
+        return None
+    for v in d["variants"]:
+        if v["name"] == m.group(1) or d["kind"] == "struct":
+            for f in v["fields"]:
+                if f["name"] == m.group(2):
+                    ty = tg.ty(d["crate"], f["ty"])
+                    return ty
+    return None
+
+
+def _skip_if(tg, t, d, where, pred, has_default):
+    ty = _field_ty(tg, t, d, where)
+    name = (ty or {}).get("name", "") if ty else ""
+    if pred == "Option::is_none":
+        # serde's derive reads a missing Option field as None (self-describing formats)
+        return "ok" if name.endswith("option::Option") else "unknown"
+    if pred in EMPTY_IS_DEFAULT:
+        # empty == Default::default() for the std collections and String
+        return "ok" if has_default else "bad"
+    return "unknown" if has_default else "bad"
+
+
+def convert_pair(prog, d, via):
+    """container from = via, into = via on a field-less enum: evaluate  From<via> for E (From<E> for via (v))  for every
+    variant v over the MIR of the two conversions.  ("ok"|"bad"|"unknown", reason)"""
+    from .interp import Interp, Stuck
+    from .util import norm, last
+    from .common import inst_of
+    if d["kind"] != "enum" or any(v["fields"] for v in d["variants"]):
+        return "unknown", "only field-less enums are evaluated"
+    if via not in ("String", "&str", "std::string::String"):
+        return "unknown", "only conversions through String are evaluated"
+    ename = d["name"]
+    short_e = d["pretty"]
+
+    def find(arg_pat, ret_pat):
+        out = []
+        for f in prog.fns.values():
+            if last(f.name) != "from" or f.get("kind") in ("Closure", "Promoted") or f.get("argc") != 1:
+                continue
+            a, r = f.local_tystr(1), f.local_tystr(0)
+            if re.search(arg_pat, a) and re.search(ret_pat, r):
+                out.append(f)
+        return out
+    e_pat = re.escape(short_e.rsplit("::", 1)[-1]) + r"$"
+    s_pat = r"(^|::)String$"
+    into = find(e_pat, s_pat)
+    frm = find(s_pat, e_pat)
+    if len(into) != 1 or len(frm) != 1:
+        return "unknown", "conversion functions not found uniquely (into: %d, from: %d)" % (len(into), len(frm))
+
+    bynorm = {}
+    for h in prog.fns.values():
+        bynorm.setdefault(norm(h.name), h)
+
+    def ev(f, args, depth=0):
+        if depth > 8:
+            raise Stuck("conversion helpers nest too deeply")
+
+        def call(t, a):
+            inst = norm(inst_of(t))
+            m = last(inst)
+            g = prog.fns.get(inst_of(t)) or bynorm.get(inst)
+            if g is not None and not inst.startswith(("core::", "alloc::", "std::")):
+                return ev(g, a, depth + 1)
+            if a and a[0][0] == "str":
+                if m in ("to_owned", "to_string", "from", "into", "as_str", "deref", "as_ref", "borrow", "clone", "as_mut_str"):
+                    return a[0]
+                if m in ("eq", "ne") and len(a) == 2 and a[1][0] == "str":
+                    return ("bool", (a[0][1] == a[1][1]) == (m == "eq"))
+            if a and a[0][0] == "variant" and a[0][1].endswith("option::Option"):
+                some = a[0][3] == "Some"
+                if m == "unwrap_or_default":
+                    if some:
+                        return a[0][4][0]
+                    dflt = [h for h in prog.fns.values() if last(h.name) == "default" and h.get("argc") == 0 and re.search(e_pat, h.local_tystr(0))]
+                    if len(dflt) != 1:
+                        raise Stuck("Default impl of %s not found" % short_e)
+                    return ev(dflt[0], [], depth + 1)
+                if m == "unwrap_or" and len(a) == 2:
+                    return a[0][4][0] if some else a[1]
+                if m in ("unwrap", "expect") and some:
+                    return a[0][4][0]
+            if a and a[0][0] == "variant" and m == "clone":
+                return a[0]
+            raise Stuck("call to %s" % inst)
+        env = {i + 1: x for i, x in enumerate(args)}
+        r, _ = Interp(f, max_steps=2000).run(env, hooks={"call": call})
+        return r
+    ok = []
+    try:
+        for v in d["variants"]:
+            val = ("variant", ename, v["idx"], v["name"], [], int(v["discr"]))
+            s = ev(into[0], [val])
+            if s[0] != "str":
+                raise Stuck("writing %s gives %s, not a string constant" % (v["name"], s[0]))
+            back = ev(frm[0], [s])
+            if back[0] != "variant":
+                raise Stuck("reading %r gives %s" % (s[1], back[0]))
+            if back[3] != v["name"]:
+                return "bad", "%s is written as %r, which reads back as %s" % (v["name"], s[1], back[3])
+            ok.append(v["name"])
+    except Stuck as e:
+        return "unknown", "conversion beyond the evaluator: %s" % e
+    return "ok", "all %d variants read back as themselves" % len(ok)
